@@ -3106,6 +3106,12 @@ class WBEMConnection:  # pylint: disable=too-many-instance-attributes
                 # paths as INSTANCENAME elements which do not contain namespace
                 # or host. We want to return instance paths with namespace, so
                 # we set it to the effective target namespace.
+                if instance.path is None:
+                    raise CIMXMLParseError(
+                        _format("Expecting CIMInstance object with path in "
+                                "result list, got instance of class {0!A} "
+                                "without path", instance.classname),
+                        conn_id=self.conn_id)
                 instance.path.namespace = namespace
 
             return instances
